@@ -7,6 +7,7 @@
 mod checks;
 mod eng_disk;
 mod eng_hist;
+mod eng_rdf;
 mod eng_sched;
 mod eng_store;
 mod eng_txm;
